@@ -230,6 +230,12 @@ func (w *inotify) AddWith(path string, opts ...addOpt) error {
 
 	w.mu.Lock()
 	defer w.mu.Unlock()
+	// Check again now that we hold the lock: Close() may have run since the
+	// check above, and the descriptor number may already belong to something
+	// else (such as another Watcher).
+	if w.isClosed() {
+		return ErrClosed
+	}
 	path, recurse := recursivePath(path)
 	if recurse {
 		return filepath.WalkDir(path, func(root string, d fs.DirEntry, err error) error {
@@ -307,6 +313,9 @@ func (w *inotify) Remove(name string) error {
 
 	w.mu.Lock()
 	defer w.mu.Unlock()
+	if w.isClosed() { // See comment in AddWith.
+		return nil
+	}
 	return w.remove(filepath.Clean(name))
 }
 
